@@ -58,6 +58,23 @@ func run(in Sx) Sx {
 				ob = List(Bool(t.Contains(s)), Bool(t.ExactMatch(s)), sxRunes([]rune(t.Filter(s))))
 			case 4:
 				ob = List(Bool(t.VerifHas(string(runesOf(o.At(1))))))
+			case 5:
+				t.AddWord(o.At(1).AsString())
+				ob = Ints(int64(t.WordsCount()))
+			case 6:
+				r := t.Remove(o.At(1).AsString())
+				ob = List(Bool(r), Int(int64(t.WordsCount())))
+			case 7:
+				var rs []rune
+				for _, ch := range o.At(1).AsString() { // the same decoding AddWord uses
+					rs = append(rs, ch)
+				}
+				ob = List(sxRunes(rs))
+			case 8:
+				s := o.At(1).AsString()
+				ob = List(Bool(t.Contains(s)), Bool(t.ExactMatch(s)), sxRunes([]rune(t.Filter(s))))
+			case 9:
+				ob = List(Bool(t.VerifHas(o.At(1).AsString())))
 			default:
 				ob = Ints(-9)
 			}
@@ -300,6 +317,82 @@ func allStrings(alpha []rune, maxLen int) []string {
 	return res
 }
 
+// byte-string histories: words and texts are concatenations of valid and invalid UTF-8
+// fragments (truncated sequences, lone continuation bytes, overlong forms, surrogates,
+// values above U+10FFFF); the model decodes them with its own UTF-8 decoder
+var frags = []string{"a", "b", "*", "\xe4\xb8\x96", "\xc3\xa9", "\xf0\x9f\x98\x80", "\xe4\xb8", "\xe4", "\x80", "\xbf",
+	"\xc0\x80", "\xc1\xbf", "\xe0\x80\x80", "\xe0\x9f\xbf", "\xed\xa0\x80", "\xed\x9f\xbf", "\xf0\x8f\xbf\xbf",
+	"\xf4\x90\x80\x80", "\xf4\x8f\xbf\xbf", "\xf5\x80\x80\x80", "\xff", "\xfe", "\xc3", "\xf0\x9f\x98", "\xef\xbf\xbd", "\x00", "\x7f", "\xc2\x80", "\xdf\xbf", "\xe0\xa0\x80", "\xef\xbf\xbf", "\xf0\x90\x80\x80"}
+
+func byteWord(rng *Rng, maxFrags int) string {
+	s := ""
+	for n := rng.Range(1, maxFrags); n > 0; n-- {
+		if rng.Chance(1, 6) {
+			s += string(rng.Bytes(1))
+		} else {
+			s += frags[rng.Intn(len(frags))]
+		}
+	}
+	return s
+}
+
+func genBytes(rng *Rng, out *Out, n int) {
+	for h := 0; h < n; h++ {
+		var pool []string
+		for len(pool) < rng.Range(2, 6) {
+			pool = append(pool, byteWord(rng, 3))
+		}
+		var ops []Sx
+		for k := rng.Range(6, 30); k > 0; k-- {
+			w := pool[rng.Intn(len(pool))]
+			switch r := rng.Intn(10); {
+			case r < 3:
+				ops = append(ops, List(Int(5), Str(w)))
+			case r < 5:
+				ops = append(ops, List(Int(6), Str(w)))
+				for _, v := range pool {
+					ops = append(ops, List(Int(9), Str(v)))
+				}
+			case r < 8:
+				x := ""
+				for len(x) < rng.Intn(14) {
+					if rng.Bool() {
+						x += pool[rng.Intn(len(pool))]
+					} else {
+						x += byteWord(rng, 2)
+					}
+				}
+				ops = append(ops, List(Int(8), Str(x)))
+			default:
+				ops = append(ops, List(Int(7), Str(byteWord(rng, 6))))
+			}
+		}
+		in := ListOf(ops)
+		out.Case("bytes", true, in, run(in))
+	}
+	// decoder only: every fragment, every pair of fragments' bytes cut anywhere, random bytes
+	var ops []Sx
+	for _, f := range frags {
+		ops = append(ops, List(Int(7), Str(f)))
+		for _, g := range frags {
+			fg := f + g
+			ops = append(ops, List(Int(7), Str(fg[:rng.Range(1, len(fg))])))
+		}
+	}
+	for k := 0; k < 300; k++ {
+		ops = append(ops, List(Int(7), Bytes(rng.Bytes(rng.Intn(9)))))
+	}
+	for i := 0; i < len(ops); i += 200 {
+		j := i + 200
+		if j > len(ops) {
+			j = len(ops)
+		}
+		in := ListOf(ops[i:j])
+		out.Case("decode", true, in, run(in))
+		out.CountN("op:decode", j-i)
+	}
+}
+
 func gen(a Args, out *Out) {
 	rng := NewRng(a.Seed).Fork()
 	nHist := 520
@@ -395,6 +488,11 @@ func gen(a Args, out *Out) {
 		in := ListOf(ops)
 		out.Case(kind, removes > 0 && queries > 0, in, run(in))
 	}
+	nb := 40
+	if a.Thorough() {
+		nb = 1000
+	}
+	genBytes(rng, out, nb)
 	// Go-side exhaustive sweeps over small literal dictionaries
 	ws := allStrings([]rune{'a', 'b'}, 2)[1:] // a b aa ab ba bb
 	sweep(out, "sweep", ws, allStrings([]rune{'a', 'b', 'c'}, 5))
